@@ -220,6 +220,7 @@ pub fn run(tier: &str, seed: i64) -> Outcome {
         Space::slice(Universe::UC { extras: 1 }, if q { 30 } else { 2 }, off),
         Space::slice(Universe::UE { extras: 0, capturer_files: None, slider_only: false }, if q { 60 } else { 4 }, off),
         Space::slice(Universe::UP, if q { 8 } else { 1 }, off),
+        Space::slice(Universe::UPQ, if q { 4 } else { 1 }, off),
         Space::slice(Universe::U4 { a: code(Q, true), b: code(R, false), files: Some((3, 4)) }, if q { 4000 } else { 100 }, off),
         Space::slice(Universe::U4 { a: code(P, true), b: code(P, false), files: Some((3, 4)) }, if q { 2000 } else { 100 }, off),
         Space::bfs("startpos", ROOT_START, if q { 1 } else { 2 }),
